@@ -552,6 +552,10 @@ func runC09(c *core.Ctx) {
 								} else {
 									res = h.root.ResolveString(q, "", vars)
 								}
+								// between the subscribe request and the event: another request that declares variables of the same names
+								// with the opposite values (on the same root and on another one) - the subscription keeps its own
+								_ = h.root.ResolveString("query X($p: Boolean, $q: Boolean, $z: Int = 3) { i }", "", map[string]interface{}{"p": !s1.val, "q": !s2.val})
+								_ = newC19H(false).root.ResolveString("query X($p: Boolean = true, $q: Boolean = true) { i }", "", map[string]interface{}{"q": !s2.val})
 								cnt, perr = h.root.AddEvent("x", &c19EvRes{map[string]interface{}{"name": "one", "n": 1}})
 							})
 							detail := map[string]interface{}{"request": q, "vars": vars, "prepared": prepared, "subscribe_response": res, "log": h.log, "want_payload": want}
